@@ -37,10 +37,11 @@ type (
 	CIndex struct{ X, I CExpr }
 	CSlice struct{ X, Lo, Hi CExpr }
 	CQuant struct {
-		Forall bool
-		Vars   []string
-		Types  []string // optional type text per var ("" = int)
-		Body   CExpr
+		Forall  bool
+		Vars    []string
+		Types   []string // optional type text per var ("" = int)
+		Body    CExpr
+		Trigger []CExpr // optional explicit (multi-)trigger: forall x :: {f(x), g(x)} body
 	}
 	CIte struct{ C, A, B CExpr }
 )
@@ -282,6 +283,19 @@ func (ps *cparser) primary() CExpr {
 				break
 			}
 			ps.expect("::")
+			if ps.isOp("{") {
+				// explicit trigger: forall x :: {f(x)} body
+				ps.next()
+				for {
+					q.Trigger = append(q.Trigger, ps.expr(0))
+					if ps.isOp(",") {
+						ps.next()
+						continue
+					}
+					break
+				}
+				ps.expect("}")
+			}
 			q.Body = ps.expr(0)
 			return q
 		}
